@@ -29,6 +29,8 @@ type rxLabel struct {
 type rxLog struct {
 	mu       sync.Mutex
 	labels   []rxLabel
+	rel      []rxLabel   // labels of the release model (C08)
+	spawned  map[int]int // internally committed releases not yet begun
 	nodes    map[interface{}]int // *node -> model index
 	rrs      map[interface{}]int // *Rerunner -> model index
 	nextNode int
@@ -43,10 +45,11 @@ type rxLog struct {
 }
 
 func newRxLog(r *Rand) *rxLog {
-	return &rxLog{nodes: map[interface{}]int{}, rrs: map[interface{}]int{}, bindGo: map[int64]int{}, lastNew: map[int64]interface{}{}, inRunOf: map[int]int{}, r: r, perturb: true}
+	return &rxLog{nodes: map[interface{}]int{}, rrs: map[interface{}]int{}, bindGo: map[int64]int{}, lastNew: map[int64]interface{}{}, inRunOf: map[int]int{}, spawned: map[int]int{}, r: r, perturb: true}
 }
 
 func (l *rxLog) add(lab string, a, b int) { l.labels = append(l.labels, rxLabel{lab, a, b}) }
+func (l *rxLog) addRel(lab string, a, b int) { l.rel = append(l.rel, rxLabel{lab, a, b}) }
 
 func (l *rxLog) nodeOf(p interface{}) int {
 	if i, ok := l.nodes[p]; ok {
@@ -58,6 +61,7 @@ func (l *rxLog) nodeOf(p interface{}) int {
 	l.nextNode++
 	l.nodes[p] = i
 	l.add("newNode", 0, 0)
+	l.addRel("newNode", 0, 0)
 	return i
 }
 
@@ -71,6 +75,7 @@ func (l *rxLog) hook(kind string, a, b interface{}) {
 		l.nextNode++
 		l.lastNew[goid()] = a
 		l.add("newNode", 0, 0)
+		l.addRel("newNode", 0, 0)
 	case "comp.new":
 		g := goid()
 		if idx, ok := l.bindGo[g]; ok {
@@ -80,6 +85,7 @@ func (l *rxLog) hook(kind string, a, b interface{}) {
 			l.nodes[a] = l.nextNode
 			l.nextNode++
 			l.add("newNode", 0, 0)
+			l.addRel("newNode", 0, 0)
 		}
 	case "rr.new":
 		l.rrs[a] = len(l.rrs)
@@ -88,11 +94,31 @@ func (l *rxLog) hook(kind string, a, b interface{}) {
 		l.add("strobe", l.nodeOf(a), 0)
 	case "inv", "inv.noop":
 		l.add("runInv", l.nodeOf(a), 0)
+	case "inv.spawn":
+		// Resource.Invalidate: `go r.invalidate()`
+		l.add("spawnInv", l.nodeOf(a), 0)
 	case "rel.begin":
 		// release starts by calling invalidate on the node
-		l.add("spawnInv", l.nodeOf(a), 0)
+		n := l.nodeOf(a)
+		l.add("spawnInv", n, 0)
+		if l.spawned[n] > 0 {
+			l.spawned[n]--
+		} else {
+			l.addRel("callRelease", n, 0)
+		}
+	case "rel.spawn":
+		l.spawned[l.nodeOf(a)]++
+	case "rel", "rel.noop":
+		l.addRel("relCS", l.nodeOf(a), 0)
+	case "rel.edge":
+		l.addRel("relEdge", l.nodeOf(a), l.nodeOf(b))
+	case "handleRelease":
+		l.addRel("handleRelease", l.nodeOf(a), 0)
+	case "addOut.skip":
+		l.addRel("addOut", l.nodeOf(a), l.nodeOf(b))
 	case "addOut":
 		l.add("addOut", l.nodeOf(a), l.nodeOf(b))
+		l.addRel("addOut", l.nodeOf(a), l.nodeOf(b))
 	case "handle":
 		n := l.nodeOf(a)
 		if r, ok := l.inRunOf[n]; ok {
@@ -108,6 +134,7 @@ func (l *rxLog) hook(kind string, a, b interface{}) {
 		l.bindGo[goid()] = idx
 		l.inRunOf[idx] = r
 		l.add("rrEnter", r, idx)
+		l.addRel("newNode", 0, 0)
 	case "rr.skip":
 		l.add("rrSkip", l.rrs[a], 0)
 	case "rr.exitfail":
@@ -148,11 +175,8 @@ func (l *rxLog) hook(kind string, a, b interface{}) {
 	}
 }
 
-// external Invalidate: the commitment to call invalidate is logged before the call
+// external Invalidate (the inv.spawn hook logs the commitment to call invalidate)
 func (l *rxLog) invalidate(res *reactive.Resource, nodePtr interface{}) {
-	l.mu.Lock()
-	l.add("spawnInv", l.nodeOf(nodePtr), 0)
-	l.mu.Unlock()
 	res.Invalidate()
 }
 
